@@ -121,6 +121,20 @@ func (s *Spec) spell(from, to, kind int) string {
 // OpenAPI 2: the Go importer (the OpenAPI 3 path goes through arr.ai and takes seconds per file)
 const goodYaml = "swagger: \"2.0\"\ninfo:\n  title: T\n  version: \"1\"\npaths: {}\n"
 
+// commonHeader: every file re-opens the application Common; the root gives it an attribute that is the empty string
+// and one that is an array (what the unmergeable compiled modules of foreign.go collide with)
+func commonHeader(i int) string {
+	if i == 0 {
+		return "Common [e=\"\", a=[\"a\"]]"
+	}
+	return "Common"
+}
+
+// sBody: the declarations of Sysl file i
+func sBody(i int) string {
+	return fmt.Sprintf("%s:\n    ...\nA%d:\n    E%d:\n        ...\n    !type T%d:\n        x <: int\nL%d [~last, k=\"v\"]:  \n    ...\n", commonHeader(i), i, i, i, i)
+}
+
 // healthy: the content of file i without any fault; bodyStart = offset of the first byte after the import lines
 func (s *Spec) healthy(i int) (text string, bodyStart int) {
 	var sb strings.Builder
@@ -128,7 +142,7 @@ func (s *Spec) healthy(i int) (text string, bodyStart int) {
 		fmt.Fprintf(&sb, "import %s\n", s.spell(i, im.To, im.Kind))
 	}
 	bodyStart = sb.Len()
-	fmt.Fprintf(&sb, "Common:\n    ...\nA%d:\n    E%d:\n        ...\n    !type T%d:\n        x <: int\nL%d [~last, k=\"v\"]:  \n    ...\n", i, i, i, i)
+	sb.WriteString(sBody(i))
 	return sb.String(), bodyStart
 }
 
@@ -226,10 +240,10 @@ func (s *Spec) content(i int) string {
 	if fault == "imports" {
 		sb.WriteString("import oops this is no path ~~\n")
 	}
-	body := fmt.Sprintf("Common:\n    ...\nA%d:\n    E%d:\n        ...\n    !type T%d:\n        x <: int\nL%d [~last, k=\"v\"]:  \n    ...\n", i, i, i, i)
+	body := sBody(i)
 	switch fault {
 	case "body":
-		body = fmt.Sprintf("Common:\n    ...\nA%d:\n    E%d [\n        ...\n", i, i)
+		body = fmt.Sprintf("%s:\n    ...\nA%d:\n    E%d [\n        ...\n", commonHeader(i), i, i)
 	case "trunc":
 		body = body[:len(body)-12] // cut off right before the colon of the last application's header
 	}
@@ -631,6 +645,7 @@ var (
 	reAmbig   = regexp.MustCompile(`^input file format for (\S+) could be one of`)
 	reJSON    = regexp.MustCompile(`^error converting spec to yaml for: (\S+)`)
 	rePb      = regexp.MustCompile(`^error parsing (\S+): `)
+	reMerge   = regexp.MustCompile(`^error merging (\S+): `)
 )
 
 func parseChain(s *Spec, text string) chain {
@@ -673,6 +688,8 @@ func parseChain(s *Spec, text string) chain {
 		c.base, c.file = "json", id(reJSON.FindStringSubmatch(rest)[1])
 	case rePb.MatchString(rest):
 		c.base, c.file = "pbdecode", id(rePb.FindStringSubmatch(rest)[1])
+	case reMerge.MatchString(rest):
+		c.base, c.file = "merge", id(reMerge.FindStringSubmatch(rest)[1])
 	}
 	return c
 }
@@ -694,6 +711,8 @@ func (c chain) gallina() string {
 		inner = fmt.Sprintf("(EJson %d)", c.file)
 	case "pbdecode":
 		inner = fmt.Sprintf("(EPbDecode %d)", c.file)
+	case "merge":
+		inner = fmt.Sprintf("(EMerge %d)", c.file)
 	default:
 		return ""
 	}
@@ -766,27 +785,35 @@ func judge(c *common.Ctx, s *Spec, o Obs, rp Replay) {
 	for _, f := range o.Reads {
 		read[f] = true
 	}
-	var hit []int
+	// hit: must fail; soft: a compiled module that cannot be merged (maybe:*): may fail, and then cleanly
+	var hit, soft []int
 	for _, i := range sortedFaults(s) {
 		if !read[i] {
 			continue
 		}
-		switch s.kind(i) {
-		case "":
+		switch k := s.kind(i); {
+		case k == "":
 			// a cut at a declaration boundary: a complete, shorter file
-		case "cut-other":
+		case k == "cut-other":
 			c.Hist("unclassified-cut-not-judged")
 			return
+		case isSoft(k):
+			soft = append(soft, i)
 		default:
 			hit = append(hit, i)
 		}
 	}
 	errLine := strings.ReplaceAll(strings.TrimSpace(o.Err), "\n", " ")
 	if len(hit) == 0 {
-		if o.Err != "" || o.Nil {
-			c.Fail("spurious-error", fmt.Sprintf("no faulty file was read, yet Parse failed: %s (%s)", errLine, where), rp)
+		if o.Err == "" && !o.Nil {
+			return
 		}
-		return
+		if len(soft) == 0 {
+			c.Fail("spurious-error", fmt.Sprintf("no faulty file was read, yet Parse failed: %s (%s)", errLine, where), rp)
+			return
+		}
+		c.Hist("unmergeable-module-rejected")
+		hit, soft = soft, nil // a permitted failure: it must name one of these files, without a module
 	}
 	kinds := map[string]bool{}
 	for _, i := range hit {
@@ -806,7 +833,7 @@ func judge(c *common.Ctx, s *Spec, o Obs, rp Replay) {
 		return
 	}
 	named := false
-	for _, i := range hit {
+	for _, i := range append(append([]int{}, hit...), soft...) {
 		if strings.Contains(o.Err, s.path(i)) {
 			named = true
 		}
